@@ -170,21 +170,47 @@ where
     true
 }
 
-/// Explore the whole tree up to `limits.bound`, in parallel below the root's children.
+/// Explore the whole tree up to `limits.bound`. The tree is expanded level by level (each level in
+/// parallel) until the frontier is wide enough, then every frontier node's subtree is searched
+/// depth-first on the thread pool.
 pub fn explore<F>(name: &str, limits: Limits, tally: &mut Tally, f: F)
 where
     F: Fn(&mut Chooser, &mut Tally) + Sync,
 {
     let started = Instant::now();
     let budget = std::sync::atomic::AtomicU64::new(0);
-    // root
-    let mut ch = Chooser::new(vec![]);
-    budget.fetch_add(1, std::sync::atomic::Ordering::Relaxed);
-    f(&mut ch, tally);
-    tally.states += 1;
-    let kids = children(&ch.trace, 0, limits.bound);
-    tally.transitions += kids.len() as u64;
-    let results: Vec<(Tally, bool)> = kids
+    let mut frontier: Vec<Vec<u32>> = vec![vec![]];
+    let mut capped = false;
+    while !frontier.is_empty() && frontier.len() < 4096 {
+        let results: Vec<(Tally, Vec<Vec<u32>>, bool)> = frontier
+            .par_iter()
+            .map(|prefix| {
+                let mut t = Tally::new();
+                if budget.fetch_add(1, std::sync::atomic::Ordering::Relaxed) >= limits.max_cases || started.elapsed() > limits.max_wall {
+                    return (t, vec![], false);
+                }
+                let plen = prefix.len();
+                let mut ch = Chooser::new(prefix.clone());
+                f(&mut ch, &mut t);
+                if let Some(d) = ch.diverged {
+                    eprintln!("MACHINERY: replay divergence in explorer: {}", d);
+                    std::process::exit(2);
+                }
+                t.states += 1;
+                let kids = children(&ch.trace, plen, limits.bound);
+                t.transitions += kids.len() as u64;
+                (t, kids, true)
+            })
+            .collect();
+        let mut next = vec![];
+        for (t, kids, ok) in results {
+            tally.merge(t);
+            next.extend(kids);
+            capped |= !ok;
+        }
+        frontier = next;
+    }
+    let results: Vec<(Tally, bool)> = frontier
         .into_par_iter()
         .map(|k| {
             let mut t = Tally::new();
@@ -192,7 +218,6 @@ where
             (t, ok)
         })
         .collect();
-    let mut capped = false;
     for (t, ok) in results {
         tally.merge(t);
         capped |= !ok;
